@@ -90,7 +90,7 @@ def ArPost (cfg : Server.Cfg) (tr : Server.Transport) (now : Nat) (req : Bytes) 
   | (.done pos, e', l') =>
     out = (.ok (some ⟨{ r with cursor := pos }, e'⟩), arSt s1 tr cfg.payload e' l') ∧ pos ≤ req.size
   | (.formErr, e', l') => out = (.ok none, stRcode 1 (arSt s1 tr cfg.payload e' l'))
-  | (.badVers, _, l') => out = (.ok none, stXRcode 16 ⟨cfg.payload, 0⟩ (arSt s1 tr cfg.payload true l'))
+  | (.badVers, e', l') => out = (.ok none, stXRcode 16 ⟨cfg.payload, 0⟩ (arSt s1 tr cfg.payload e' l'))
   | (.tsig, e', l') => ∃ (t : Tsig.ReadTsigRr) (mw : Bytes) (r' : Reader),
       r'.octets = req ∧ r'.cursor ≤ req.size ∧ r'.mark = r.mark ∧
       out = tsigCont (Server.processTsig cfg now t mw r' (arSt s1 tr cfg.payload e' l')) e'
@@ -361,5 +361,228 @@ theorem scanAr_spec (cfg : Server.Cfg) (tr : Server.Transport) (now : Nat) (req 
         · -- any other record is skipped
           simp only [ht250, if_false]
           exact ih (index + 1) { r with cursor := d.next } e lim (by omega) hi' rfl hl
+
+
+/-! ### `handle_query` up to the catalog dispatch -/
+
+/-- the catalog lookup as the spec's scan sees it: the kind of the entry `Catalog::lookup` returns
+    for the (well-formed) QNAME and the QCLASS -/
+def catKind (cfg : Server.Cfg) (qname : List UInt8) (qclass : Nat) : Option Spec.Server.ZoneKind :=
+  match WName.parse qname with
+  | some (qn, _) =>
+    (Catalog.lookup (Server.mkCatalog cfg.zones) qn.labels qclass).map (fun e =>
+      match e.kind with
+      | .Loaded => Spec.Server.ZoneKind.loaded
+      | .NotYetLoaded => .notYetLoaded
+      | .FailedToLoad => .failedToLoad)
+  | none => none
+
+theorem do_rcode (rc : Nat) (s : State) (h : 3 < s.octets.size) : setRcode rc s = (.ok (), stRcode rc s) :=
+  setRcode_eq rc s h
+
+theorem handleQuery_spec (cfg : Server.Cfg) (w : List UInt8) (qn : WName) (qt qc : Nat)
+    (hqn : WName.parse w = some (qn, [])) (tr : Server.Transport) (S : State) (h3 : 3 < S.octets.size) :
+    if 251 ≤ qt ∧ qt ≤ 254 then Server.handleQuery cfg (some (qn, qt, qc)) tr S = (.ok (), stRcode 4 S)
+    else if qc = 255 then Server.handleQuery cfg (some (qn, qt, qc)) tr S = (.ok (), stRcode 4 S)
+    else match catKind cfg w qc with
+      | none => Server.handleQuery cfg (some (qn, qt, qc)) tr S = (.ok (), stRcode 5 S)
+      | some .loaded => True
+      | some _ => Server.handleQuery cfg (some (qn, qt, qc)) tr S = (.ok (), stRcode 2 S) := by
+  unfold Server.handleQuery
+  simp only [QT_IXFR, QT_AXFR, QT_MAILB, QT_MAILA, QC_ANY_eq, RC_NOTIMP, RC_SERVFAIL, RC_REFUSED]
+  have hm : (qt = 251 ∨ qt = 252 ∨ qt = 253 ∨ qt = 254) ↔ (251 ≤ qt ∧ qt ≤ 254) := by omega
+  simp only [hm]
+  by_cases h1 : 251 ≤ qt ∧ qt ≤ 254
+  · simp only [h1, and_self, if_true]
+    exact do_rcode 4 S h3
+  · simp only [h1, if_false]
+    by_cases h2 : qc = 255
+    · simp only [h2, if_true]
+      exact do_rcode 4 S h3
+    · simp only [h2, if_false]
+      unfold catKind
+      rw [hqn]
+      simp only
+      cases hl : Catalog.lookup (Server.mkCatalog cfg.zones) qn.labels qc with
+      | none => simp only [Option.map_none]; exact do_rcode 5 S h3
+      | some e =>
+        simp only [Option.map_some]
+        cases hk : e.kind with
+        | Loaded => trivial
+        | NotYetLoaded => simp only; exact do_rcode 2 S h3
+        | FailedToLoad => simp only; exact do_rcode 2 S h3
+
+
+/-! ### from the mark to the opcode dispatch -/
+
+/-- the spec's scan after the question (`specScanWith` from `scanPlain` on) -/
+def specTail (lookup : List UInt8 → Nat → Option Spec.Server.ZoneKind) (serverSize : Nat) (msg : Bytes)
+    (q : Option Spec.DQuestion) (p1 an ns ar opcode : Nat) : Spec.Server.Scan :=
+  match Spec.Server.scanPlain msg (an + ns) p1 with
+  | none => { respond := true, question := q, verdict := .formErr }
+  | some p2 =>
+    match Spec.Server.scanAr msg serverSize ar ar p2 false 512 with
+    | (.formErr, e, l) => { respond := true, question := q, edns := e, limitUdp := l, verdict := .formErr }
+    | (.badVers, e, l) => { respond := true, question := q, edns := e, limitUdp := l, verdict := .badVers }
+    | (.tsig, e, l) => { respond := true, question := q, edns := e, limitUdp := l, verdict := .tsigReached }
+    | (.done p3, e, l) =>
+      let base : Spec.Server.Scan := { respond := true, question := q, edns := e, limitUdp := l }
+      if p3 < msg.size then { base with verdict := .formErr }
+      else if opcode ≠ 0 then { base with verdict := .notImp }
+      else match q with
+        | none => { base with verdict := .formErr }
+        | some qq =>
+          if 251 ≤ qq.qtype ∧ qq.qtype ≤ 254 then { base with verdict := .notImp }
+          else if qq.qclass = 255 then { base with verdict := .notImp }
+          else match lookup qq.qname qq.qclass with
+            | none => { base with verdict := .refused }
+            | some .loaded => { base with verdict := .answer }
+            | some _ => { base with verdict := .servFailZone }
+
+/-- the writer state the verdict dictates (no-data verdicts) -/
+def finalOf (s1 : State) (tr : Server.Transport) (payload : Nat) (sc : Spec.Server.Scan) : State :=
+  match sc.verdict with
+  | .formErr => stRcode 1 (arSt s1 tr payload sc.edns sc.limitUdp)
+  | .badVers => stXRcode 16 ⟨payload, 0⟩ (arSt s1 tr payload sc.edns sc.limitUdp)
+  | .notImp => stRcode 4 (arSt s1 tr payload sc.edns sc.limitUdp)
+  | .refused => stRcode 5 (arSt s1 tr payload sc.edns sc.limitUdp)
+  | .servFailZone => stRcode 2 (arSt s1 tr payload sc.edns sc.limitUdp)
+  | _ => arSt s1 tr payload sc.edns sc.limitUdp
+
+/-- the question as the spec decodes it vs. as the model holds it -/
+def QRel (q : Option Spec.DQuestion) (question : Option (WName × Nat × Nat)) : Prop :=
+  match q, question with
+  | none, none => True
+  | some x, some (qn, qt, qc) => WName.parse x.qname = some (qn, []) ∧ qt = x.qtype ∧ qc = x.qclass
+  | _, _ => False
+
+/-- is the verdict decided by the scan alone (everything but "a loaded zone answers" and "a TSIG
+    record was reached")? -/
+def noDataV : Spec.Server.Verdict → Bool
+  | .answer => false
+  | .tsigReached => false
+  | _ => true
+
+theorem do_formErr_true (s : State) (h : 3 < s.octets.size) :
+    (do setRcode (Server.RC "FORMERR"); pure true : M Bool) s = (.ok true, stRcode 1 s) := by
+  rw [RC_FORMERR, bind_ok (setRcode_eq 1 s h)]; rfl
+
+theorem scanAndDispatch_spec (cfg : Server.Cfg) (tr : Server.Transport) (now : Nat) (req : Bytes)
+    (q : Option Spec.DQuestion) (question : Option (WName × Nat × Nat)) (hq : QRel q question)
+    (r1 : Reader) (hi : Inv r1) (ho : r1.octets = req) (s1 : State) (hb : Base s1 tr cfg.payload)
+    (hreq : req.size ≤ Rdata.USIZE_MAX) (htf : TsigFacts) (an ns ar opcode : Nat) :
+    noDataV (specTail (catKind cfg) cfg.payload req q r1.cursor an ns ar opcode).verdict = true →
+    Server.scanAndDispatch cfg tr now an ns ar opcode question r1 s1 =
+      (.ok true, finalOf s1 tr cfg.payload (specTail (catKind cfg) cfg.payload req q r1.cursor an ns ar opcode)) := by
+  unfold Server.scanAndDispatch specTail
+  have hi2 : Inv (setMark r1) := hi
+  have hsp := scanAnNs_spec req (an + ns) (setMark r1) hi2 ho
+  have hc : (setMark r1).cursor = r1.cursor := rfl
+  rw [hc] at hsp
+  simp only
+  cases hpl : Spec.Server.scanPlain req (an + ns) r1.cursor with
+  | none =>
+    rw [hpl] at hsp
+    simp only [hsp]
+    intro _
+    exact do_formErr_true s1 hb.size3
+  | some p2 =>
+    rw [hpl] at hsp
+    obtain ⟨hsn, hp2, _⟩ := hsp
+    simp only [hsn]
+    have har := scanAr_spec cfg tr now req ar s1 hb hreq htf ar 0 { setMark r1 with cursor := p2 } false 512
+      (by omega) ⟨hi.1, by rw [show ({ setMark r1 with cursor := p2 } : Reader).octets = r1.octets from rfl, ho]; exact hp2⟩
+      ho (fun _ => rfl)
+    have hst : arSt s1 tr cfg.payload false 512 = s1 := rfl
+    rw [hst] at har
+    simp only at har
+    generalize hres : Spec.Server.scanAr req cfg.payload ar ar p2 false 512 = res at har
+    obtain ⟨en, e, l⟩ := res
+    cases en with
+    | formErr =>
+      simp only [ArPost] at har
+      intro _
+      rw [bind_ok har]
+      rfl
+    | badVers =>
+      simp only [ArPost] at har
+      intro _
+      rw [bind_ok har]
+      rfl
+    | tsig => intro h; cases h
+    | done p3 =>
+      simp only [ArPost] at har
+      obtain ⟨har, hp3⟩ := har
+      rw [bind_ok har]
+      have hszm : (setMark r1).octets.size = req.size := by rw [← ho]; rfl
+      simp only [atEom, hszm]
+      have hS3 : 3 < (arSt s1 tr cfg.payload e l).octets.size := by rw [arSt_size]; exact hb.size3
+      by_cases hlt : p3 < req.size
+      · have : ¬ (p3 ≥ req.size) := by omega
+        simp only [hlt, if_true, this, decide_false, Bool.not_false]
+        intro _
+        exact do_formErr_true _ hS3
+      · have : p3 ≥ req.size := by omega
+        simp only [hlt, if_false, this, decide_true, Bool.not_true, Bool.false_eq_true]
+        by_cases hop : opcode = 0
+        · subst hop
+          simp only [ne_eq, not_true_eq_false, if_false, if_true]
+          cases q with
+          | none =>
+            cases question with
+            | none =>
+              simp only
+              intro _
+              have : Server.handleQuery cfg none tr (arSt s1 tr cfg.payload e l) =
+                  (.ok (), stRcode 1 (arSt s1 tr cfg.payload e l)) := by
+                unfold Server.handleQuery; rw [RC_FORMERR]; exact do_rcode 1 _ hS3
+              rw [bind_ok this]
+              rfl
+            | some x => exact absurd hq (by simp [QRel])
+          | some qq =>
+            cases question with
+            | none => exact absurd hq (by simp [QRel])
+            | some x =>
+              obtain ⟨qn, qt, qc⟩ := x
+              obtain ⟨hpq, rfl, rfl⟩ := hq
+              have hqs := handleQuery_spec cfg qq.qname qn qq.qtype qq.qclass hpq tr _ hS3
+              simp only
+              by_cases h1 : 251 ≤ qq.qtype ∧ qq.qtype ≤ 254
+              · rw [if_pos h1] at hqs
+                simp only [h1, and_self, if_true]
+                intro _
+                rw [bind_ok hqs]; rfl
+              · rw [if_neg h1] at hqs
+                simp only [h1, if_false]
+                by_cases h2 : qq.qclass = 255
+                · rw [if_pos h2] at hqs
+                  simp only [h2] at hqs
+                  simp only [h2, if_true]
+                  intro _
+                  rw [bind_ok hqs]; rfl
+                · rw [if_neg h2] at hqs
+                  simp only [h2, if_false]
+                  cases hk : catKind cfg qq.qname qq.qclass with
+                  | none =>
+                    rw [hk] at hqs
+                    simp only at hqs ⊢
+                    intro _
+                    rw [bind_ok hqs]; rfl
+                  | some k =>
+                    rw [hk] at hqs
+                    cases k with
+                    | loaded => intro h; cases h
+                    | notYetLoaded =>
+                      simp only at hqs ⊢
+                      intro _
+                      rw [bind_ok hqs]; rfl
+                    | failedToLoad =>
+                      simp only at hqs ⊢
+                      intro _
+                      rw [bind_ok hqs]; rfl
+        · simp only [ne_eq, hop, not_false_eq_true, if_true, if_false]
+          intro _
+          rw [RC_NOTIMP, bind_ok (do_rcode 4 _ hS3)]
+          rfl
 
 end QV.ServerScan
